@@ -12,6 +12,8 @@ verus! {
 //@include dev.rs
 //@include bits_body.rs
 //@include page_w_body.rs
+//@include hdr_items.rs
+//@include fmt_body.rs
 //@include recval.rs
 //@include pcw_body.rs
 } // verus!
